@@ -41,7 +41,7 @@ Section Final.
     intros C1 I Q.
     assert (M : st_mode s = Running).
     { destruct (st_mode s) eqn:M; [| |reflexivity]; exfalso.
-      - apply (Q (mkState (release (st_tbl s)) (st_hosts s) [] [] (st_log s) (st_colog s) Starting)).
+      - apply (Q (mkState (release (st_tbl s)) (st_hosts s) [] [] (st_log s) (st_colog s) Starting 0)).
         apply (fire_step_nc LRelease); [reflexivity|]. cbn. now rewrite M.
       - eapply Q. apply (fire_step_nc LAddStarts); [reflexivity|]. cbn. rewrite M. reflexivity. }
     assert (P : pick (st_tbl s) = None).
